@@ -232,7 +232,20 @@ func runC06(c *Case) {
 		case x < 50:
 			return c06stmt{"insert into %T values (?,?,?)", []interface{}{pk(), valA(), val("b")}}
 		case x < 75:
-			switch r.Intn(6) {
+			switch r.Intn(9) {
+			case 6:
+				if !singleRowOnly && !notNullA {
+					// column expressions: values computed from the row itself
+					return c06stmt{"update %T set b = a, a = b where k >= ? and k <= ?", []interface{}{pk(), pk()}}
+				}
+				fallthrough
+			case 7:
+				if !singleRowOnly {
+					return c06stmt{"update %T set b = typeof(b) || ? || length(b) where k in (?,?,?)", []interface{}{"+", pk(), pk(), pk()}}
+				}
+				fallthrough
+			case 8:
+				return c06stmt{"update %T set b = typeof(a) where k = ?", []interface{}{pk()}}
 			case 0:
 				return c06stmt{"update %T set a=?, b=? where k=?", []interface{}{valA(), val("b"), pk()}}
 			case 1:
@@ -252,7 +265,17 @@ func runC06(c *Case) {
 				return c06stmt{"update %T set a=? where k=?", []interface{}{valA(), pk()}}
 			}
 		default:
-			switch r.Intn(8) {
+			switch r.Intn(10) {
+			case 8:
+				if !singleRowOnly {
+					return c06stmt{"delete from %T where k in (?,?,?,?)", []interface{}{pk(), pk(), pk(), pk()}}
+				}
+				fallthrough
+			case 9:
+				if !singleRowOnly {
+					return c06stmt{"delete from %T where k > ? and b is null", []interface{}{pk()}}
+				}
+				fallthrough
 			case 0:
 				if !singleRowOnly {
 					return c06stmt{"delete from %T where k >= ? and k < ?", []interface{}{pk(), pk()}}
@@ -308,8 +331,26 @@ func runC06(c *Case) {
 			return query("select * from %T order by a, k", true) && query("select * from %T order by b desc, k desc", true)
 		case x < 93:
 			return query("select * from %T order by k desc, a", true)
-		case x < 95:
+		case x < 94:
 			return query("select max(k) from %T", true) && query("select min(k) from %T", true)
+		case x < 96:
+			// more shapes: subqueries, self-joins on the key, cross-class bounds, NULL tests, DISTINCT
+			switch r.Intn(7) {
+			case 0:
+				return query("select k from %T where k in (select k from %T where a = ?) order by k", true, valA())
+			case 1:
+				return query("select x.k, y.b from %T x join %T y on x.k = y.k where x.k > ? order by x.k", true, pk())
+			case 2:
+				return query("select * from %T where k > ? and k < ? order by k", true, int64(r.Intn(50)), "m")
+			case 3:
+				return query("select * from %T where k is null or k = ? order by k", true, pk())
+			case 4:
+				return query("select distinct typeof(k), typeof(a) from %T order by 1, 2", true)
+			case 5:
+				return query("select k from %T where k >= ? order by k limit 3", true, pk())
+			default:
+				return query("select count(*) from %T where k not between ? and ?", true, pk(), pk())
+			}
 		case x < 98:
 			// key and non-key predicates mixed, in both orders
 			op := ops[r.Intn(5)]
